@@ -63,6 +63,7 @@ func c19Guard(f func() string) string {
 	case s := <-ch:
 		return s
 	case <-time.After(5 * time.Second):
+		decTimeouts++
 		return "timeout"
 	}
 }
